@@ -512,7 +512,7 @@ def rule_always_desugared(ctx, R):
                 conds = [x for x in (conditions_to(f["body"], c) or [])]
                 extra = [fact_str(x) for x in conds if not ((x[0] in ("arm", "iflet")) and "ParseResult::" in fact_str(x))]
                 ctx.check(R, "%s/desugaring-unconditional[%d]" % (f["name"], n), not extra, "remove_syntactic_sugar only under %s: in the other case templates reach the lifting with tuples / anonymous components" % extra, site(LIBF, c))
-    ctx.floor(R, "desugaring call sites", n, 2)
+    ctx.floor(R, "desugaring call sites", n, 1)  # (the program and the library case may share one call)
 
 
 def eval_sugar_pipeline(ctx, R):
